@@ -266,7 +266,7 @@ def real_replay(cfg, special=None):
     Kr = A.dot(A.T) + u * np.eye(u)
     B = rng.rand(u, u)
     Mr = B.dot(B.T) + np.eye(u)
-    if special == 'zero-column-sum':
+    if special == 'zero-column-sum' and u >= 3:
         Mr = np.eye(u) * 3.0
         Mr[0, 1] = Mr[1, 0] = -1.5
         Mr[0, 2] = Mr[2, 0] = -1.5       # column 0 sums to zero, M stays positive definite
